@@ -158,8 +158,23 @@ def testbench_io(ctx):
             ok = ok and len(ats) == 1 and ats[0][0] == "call" and ats[0][1] == ("n", quant) and equivalent(g, A(ats[0])) is None
             if ok:
                 lc = ats[0][2][0]
-                ok = lc[0] == "lc" and lc[3][0][1] == lp[0][0][0] and to_formula(lc[2]) == f_not(A(mk_is_none(lc[3][0][0])))
-        ctx.check(ok, "C43.until", fn.site, name, found="; ".join(f"{tstr(r.value)} if {fstr(py_guard(r))}" for _, r in rs) or "no return", required=f"returns the first result list in which {quant} entry is not None")
+                res = lp[0][0][0]
+                over_all = lc[0] == "lc" and lc[3][0][1] == res and to_formula(lc[2]) == f_not(A(mk_is_none(lc[3][0][0])))
+                # ... over the entries that are calls (or sampled method results): a sampled plain value is never None, so a test over
+                # every entry is trivially true for `any` as soon as a value is sampled (F37)
+                over_calls = False
+                if lc[0] == "lc" and len(lc[3]) == 1:
+                    ib, it, conds = lc[3][0]
+                    itd = ex.vardef(it) or it
+                    if to_formula(lc[2]) == f_not(A(mk_is_none(("i", res, ib)))) and not conds and itd[0] == "lc" and len(itd[3]) == 1:
+                        jb, jit, jc = itd[3][0]
+                        # [i for i, v in enumerate(self.calls_and_values) if isinstance(v, tuple)]  (the extractor binds the index)
+                        cav = ("a", ("self",), "calls_and_values")
+                        over_calls = (itd[2] == jb and (pmatch("enumerate(Q_l)", jit) == {"l": cav} or jit == ("call", ("n", "range"), (("call", ("n", "len"), (cav,), ()),), ()))
+                                      and len(jc) == 1 and pmatch("isinstance(Q_v, tuple)", jc[0]) == {"v": ("i", cav, jb)})
+                ok = over_calls or (over_all and quant == "all")
+        ctx.check(ok, "C43.until", fn.site, name, found="; ".join(f"{tstr(r.value)} if {fstr(py_guard(r))}" for _, r in rs) or "no return",
+                  required=f"returns the first result list in which {quant} call entry (a tuple of calls_and_values) is not None; sampled plain values do not count")
     fn = Fn(ctx.repo, TB, "CallTrigger.__aiter__", "C43")
     ys = [(ex, e) for ex in fn.exs for e in ex.of(Effect) if e.call[0] == "call" and e.call[1] == ("n", "yield")]
     ok = len(ys) >= 1 and all(e.call[2][0] == ("call", ("n", "await"), (("self",),), ()) and any(fr[0] == "while" and fr[1] == ("c", True) for fr in e.frames) for _, e in ys)
@@ -304,7 +319,9 @@ MUTANTS = [
     ("values-overlap-calls", TB, "        values_it = iter(results[len(only_calls) :])", "        values_it = iter(results[len(only_calls) - 1 :])"),
     ("init-unconditional-data", TB, "        for tbio, data in only_calls:\n            if data is not None:\n                tbio.call_init(self.sim, data)", "        for tbio, data in only_calls:\n            tbio.call_init(self.sim, data)"),
     ("call-is-single-try", TB, "        return (await CallTrigger(sim).call(self, data, **kwdata).until_done())[0]", "        return (await CallTrigger(sim).call(self, data, **kwdata))[0]"),
-    ("until-done-all", TB, "            if any(res is not None for res in results):\n                return results", "            if all(res is None for res in results):\n                return results"),
+    ("until-done-all", TB, "            if any(results[i] is not None for i in calls):\n                return results", "            if all(results[i] is None for i in calls):\n                return results"),
+    ("until-done-counts-sampled-values", TB, "            if any(results[i] is not None for i in calls):\n                return results", "            if any(res is not None for res in results):\n                return results"),
+    ("until-done-only-first-call", TB, "calls = [i for i, v in enumerate(self.calls_and_values) if isinstance(v, tuple)]", "calls = [i for i, v in enumerate(self.calls_and_values) if isinstance(v, tuple)][:1]"),
     ("disable-enables", TB, "    def disable(self, sim: SimulatorContext):\n        self.set_enable(sim, False)", "    def disable(self, sim: SimulatorContext):\n        self.set_enable(sim, True)"),
     ("mock-effects-always", MM, "                if done:\n                    for eff in self._effects:\n                        eff()", "                for eff in self._effects:\n                    eff()"),
     ("mock-effects-not-cleared", MM, "            self._effects = []\n            self._freeze = False\n", "            self._freeze = False\n"),
